@@ -244,14 +244,22 @@ impl Prop for C06 {
                     let Some(j2) = j2 else { continue };
                     let failing_names = |j: usize| -> Vec<String> { ws.metas[j].ops.iter().filter(|o| !o.failing_hunks.is_empty()).flat_map(|o| vec![format!("A {} {}", j, o.old_path), format!("A {} {}", j, o.new_path)]).collect() };
                     let (n1, n2) = (failing_names(j1), failing_names(j2));
-                    let q1 = queues.iter().position(|q| q.iter().any(|k| n1.contains(k)));
-                    let q2 = queues.iter().position(|q| q.iter().any(|k| n2.contains(k)));
+                    // keys carry the name as spelled in the patch ("A <patch> <name>")
+                    let nk = |k: &String| -> String {
+                        let mut sp = k.splitn(3, ' ');
+                        match (sp.next(), sp.next(), sp.next()) {
+                            (Some(a), Some(j), Some(name)) => format!("{} {} {}", a, j, ws::norm_rel(name)),
+                            _ => k.clone(),
+                        }
+                    };
+                    let q1 = queues.iter().position(|q| q.iter().any(|k| n1.contains(&nk(k))));
+                    let q2 = queues.iter().position(|q| q.iter().any(|k| n2.contains(&nk(k))));
                     let (Some(q1), Some(q2)) = (q1, q2) else { continue };
                     if q1 == q2 {
                         continue;
                     }
-                    let e1 = queues[q1].iter().find(|k| n1.contains(k)).unwrap().clone();
-                    let e2 = queues[q2].iter().find(|k| n2.contains(k)).unwrap().clone();
+                    let e1 = queues[q1].iter().find(|k| n1.contains(&nk(k))).unwrap().clone();
+                    let e2 = queues[q2].iter().find(|k| n2.contains(&nk(k))).unwrap().clone();
                     let mut v = Vec::new();
                     // everything the two workers do before those events, then the crossing
                     for k in &queues[q2] {
@@ -623,6 +631,9 @@ impl Prop for C07 {
                     let Some(rest) = key.strip_prefix("A ") else { continue };
                     let mut sp = rest.splitn(2, ' ');
                     let (Some(idx), Some(name)) = (sp.next().and_then(|x| x.parse::<usize>().ok()), sp.next()) else { continue };
+                    // the tool prints the name as spelled in the patch
+                    let name = ws::norm_rel(name);
+                    let name = name.as_str();
                     workers.insert(th.clone());
                     // find the op: the k-th op of patch idx whose dispatch name (old or new) is `name`
                     let Some(meta) = ws.metas.get(idx) else { continue };
@@ -796,7 +807,9 @@ impl Prop for C18 {
                     ref other => return Verdict::Fail(format!("{}: crashed: {:?}; stderr: {}", what, other, ws::lossy(&r.obs.out.stderr))),
                 }
                 let err = String::from_utf8_lossy(&r.obs.out.stderr).into_owned();
-                if !(err.contains("Failed to save") && err.contains(&r.dir)) && exp.applied == exp.requested {
+                // the message carries the name as spelled in the patch: compare the quoted names as paths
+                let names_dir = err.split('"').skip(1).step_by(2).any(|q| ws::norm_rel(q).starts_with(&format!("{}/", r.dir)));
+                if !(err.contains("Failed to save") && (err.contains(&r.dir) || names_dir)) && exp.applied == exp.requested {
                     return Verdict::Fail(format!("{}: the error message does not name a file in that directory: {}", what, ws::lossy(&r.obs.out.stderr)));
                 }
                 let got_applied: Vec<String> = r.obs.snap.get(&b".pc/applied-patches".to_vec()).map(|e| String::from_utf8_lossy(&e.bytes).lines().map(|s| s.to_string()).collect()).unwrap_or_default();
@@ -871,7 +884,7 @@ impl Prop for C18 {
         let mut written: Vec<(String, usize)> = Vec::new();
         for (_, kind, path) in &ops {
             if kind == "write" || kind == "rej-write" || kind == "backup" {
-                let rel = path.trim_start_matches("./").to_string();
+                let rel = ws::norm_rel(path);
                 if let Some((d, _)) = base_files.get(&rel) {
                     // with several threads a run-ahead worker may load a file of a later patch and re-save it
                     // unchanged - or not, depending on timing: only files that really change must be written
